@@ -13,6 +13,7 @@
 #include <cstdlib>
 #include <cstring>
 #include <fcntl.h>
+#include <pthread.h>
 #include <map>
 #include <set>
 #include <string>
@@ -132,6 +133,8 @@ Report& rep();
 void set_current(const char* f, ...) __attribute__((format(printf, 1, 2)));
 void clear_current();
 const char* current();
+void set_watchdog(unsigned seconds);   // per-case watchdog: no set_current/clear_current/tick for this long => exit 77 with the case dumped
+void tick();
 
 // standard replay descriptor for the in-flight case
 inline std::string case_desc(const std::string& type, int64_t case_idx, const std::string& stage, const std::string& extra_json = "{}") {
@@ -166,8 +169,12 @@ Args& args() { static Args a; return a; }
 Report& rep() { static Report r; return r; }
 static char g_current[8192];
 static int g_current_fd = -1;
-void set_current(const char* f, ...) { va_list ap; va_start(ap, f); vsnprintf(g_current, sizeof g_current, f, ap); va_end(ap); }
-void clear_current() { g_current[0] = 0; }
+static volatile uint64_t g_progress = 0;
+static volatile unsigned g_watchdog_s = 180;
+void set_watchdog(unsigned seconds) { g_watchdog_s = seconds; g_progress++; }
+void tick() { g_progress++; }
+void set_current(const char* f, ...) { va_list ap; va_start(ap, f); vsnprintf(g_current, sizeof g_current, f, ap); va_end(ap); g_progress++; }
+void clear_current() { g_current[0] = 0; g_progress++; }
 const char* current() { return g_current; }
 static void dump_current() {
   if (g_current_fd >= 0 && g_current[0]) {
@@ -177,6 +184,18 @@ static void dump_current() {
   }
 }
 static void crash_handler(int sig) { dump_current(); signal(sig, SIG_DFL); raise(sig); }
+static void* watchdog_main(void*) {
+  uint64_t last = g_progress; unsigned idle = 0;
+  for (;;) {
+    sleep(1);
+    if (g_progress != last) { last = g_progress; idle = 0; continue; }
+    if (++idle >= g_watchdog_s) {
+      fprintf(stderr, "[w%d] watchdog: no progress for %u s; case in flight: %s\n", args().worker, idle, g_current);
+      dump_current(); _exit(77);
+    }
+  }
+  return nullptr;
+}
 
 void Report::violation(const std::string& key, const std::string& what, const std::string& case_json) {
   auto it = viols.find(key);
@@ -239,6 +258,8 @@ int main(int argc, char** argv) {
 #else
   for (int s : {SIGABRT, SIGSEGV, SIGBUS, SIGFPE, SIGILL}) signal(s, crash_handler);
 #endif
+  signal(SIGPIPE, SIG_IGN);   // a write to a pipe whose reader went away is an IOError for the writer under test, not a harness death
+  { pthread_t th; pthread_create(&th, nullptr, watchdog_main, nullptr); pthread_detach(th); }
   int rc = engine_main();
   clear_current();
   int frc = rep().finish();
